@@ -1,0 +1,15 @@
+//go:build verif
+// +build verif
+
+package blocklist
+
+import "time"
+
+// VerifSetTimeNow replaces the package's time source (nil restores time.Now).
+// Verification hook: only compiled with the build tag "verif".
+func VerifSetTimeNow(f func() time.Time) {
+	if f == nil {
+		f = time.Now
+	}
+	timeNow = f
+}
